@@ -57,7 +57,10 @@ LEVEL_TEXT = ("C04_iff (Coq): for every syntactically valid list of directives t
               "positions (booked after the account's last close; zero quantities and unchanged positions included, also on days "
               "with prices only), each once, ordered by account and commodity, with the running quantity of that day's end "
               "(write_spec; C04_write_spec_b_spec: = the executable form the check evaluates); C04_write_order_irrelevant: "
-              "permuting the directives changes neither the assertions nor the printed bytes.")
+              "permuting the directives changes neither the assertions nor the printed bytes (C04_write_arrival, C04_write_map_order: "
+              "nor do file arrival order or the enumeration of the Go map); C04_write_text_accepted: for an accepted journal as the "
+              "parser delivers it, the printed text is read back by the model's parser as assertions only (the collected ones, "
+              "quantities re-read) and the journal extended by them is accepted.")
 LEVEL_NOTE = ("Trusted: kernel, extraction, harness; the model-to-code tie is sampled (quick ~1500 journals + 400 through check "
               "--write, thorough 200k + 20k + exhaustive small space). The theorem is about the repaired checker; against the pinned code the check reports "
               "the two defects as violations. C04_order_irrelevant: well-formedness is invariant under every permutation of the "
